@@ -45,44 +45,29 @@ Proof.
 Qed.
 
 (* ---- C11_nonempty_bounded ----
-   Full statement:  every delivered batch is non-empty, and for Batch with batchSize >= 1 it holds
-   at most batchSize items.
-   The bound is proved for all runs.  Non-emptiness is REFUTED by the faithful model
-   ([C11_nonempty_refuted], a genuine defect of the Go code: in the `case <-out.waiting` arm the
-   branch `time.Since(batchStart) > maxWait` calls flush() without stopTimer(); a timer started for
-   that batch by an earlier waiter stays live and its later expiry makes `case <-timerC` flush the
-   next batch unconditionally - empty, or younger than maxWait).  It is proved for all runs that
-   have not taken that step (ghost flag [stale] = false): [C11_nonempty_partial]. *)
+   Every delivered batch is non-empty, and for Batch with batchSize >= 1 it holds at most
+   batchSize items. *)
+Theorem C11_nonempty :
+  forall mw m calls nctx s d, Reach mw m calls nctx s ->
+    In d (delivered s) -> d_batch d <> [].
+Proof. intros mw m calls nctx s d Hr. exact (nonempty_all _ _ _ _ s d Hr). Qed.
+
 Theorem C11_bounded :
   forall mw m calls nctx s size d, Reach mw m calls nctx s ->
     mode s = FBatch size -> 1 <= size -> In d (delivered s) -> zlen (d_batch d) <= size.
 Proof. intros mw m calls nctx s size d Hr. exact (bounded _ _ _ _ s size d Hr). Qed.
 
-Theorem C11_nonempty_partial :
-  forall mw m calls nctx s d, Reach mw m calls nctx s ->
-    stale s = false -> In d (delivered s) -> d_batch d <> [].
-Proof. intros mw m calls nctx s d Hr. exact (nonempty_partial _ _ _ _ s d Hr). Qed.
-
-(* forall ... Reach s -> In d (delivered s) -> d_batch d <> []   is false: *)
-Theorem C11_nonempty_refuted :
-  exists mw m calls nctx s d,
-    Reach mw m calls nctx s /\ In d (delivered s) /\ d_batch d = [] /\
-    result_of s (d_who d) = Some (CBatch []).
-Proof. exact nonempty_refuted. Qed.
-
 (* ---- C11_underfilled_only_after_maxwait ----
-   Full statement:  a batch that is not full and is delivered before the source ended was flushed
-   at a clock value >= batchStart + maxWait, and a consumer had announced itself via `waiting`
-   since the previous hand-off.
-   "Not full, source not ended" = the flush came from the timer arm or the waiting arm
+   A batch that is not full and is delivered before the source ended was flushed at a clock value
+   >= batchStart + maxWait, and a consumer had announced itself via `waiting` since the previous
+   hand-off.  "Not full, source not ended" = the flush came from the timer arm or the waiting arm
    ([timed (d_reason d)]); for Batch this is implied by  len < batchSize  and  c still open
-   ([C11_underfilled_is_timed]).  REFUTED by the faithful model through the same stale timer
-   ([C11_underfilled_refuted]); proved for all runs with [stale] = false. *)
-Theorem C11_underfilled_only_after_maxwait_partial :
+   ([C11_underfilled_is_timed]). *)
+Theorem C11_underfilled_only_after_maxwait :
   forall mw m calls nctx s d, Reach mw m calls nctx s ->
-    stale s = false -> In d (delivered s) -> timed (d_reason d) = true ->
+    In d (delivered s) -> timed (d_reason d) = true ->
     d_ann d = true /\ d_start d + maxw s <= d_clock d.
-Proof. intros mw m calls nctx s d Hr. exact (maxwait_partial _ _ _ _ s d Hr). Qed.
+Proof. intros mw m calls nctx s d Hr. exact (maxwait_all _ _ _ _ s d Hr). Qed.
 
 Theorem C11_underfilled_is_timed :
   forall mw m calls nctx s size d, Reach mw m calls nctx s ->
@@ -90,12 +75,21 @@ Theorem C11_underfilled_is_timed :
     timed (d_reason d) = true.
 Proof. intros mw m calls nctx s size d Hr. exact (underfilled_is_timed _ _ _ _ s size d Hr). Qed.
 
-Theorem C11_underfilled_refuted :
-  exists mw m calls nctx s d,
-    Reach mw m calls nctx s /\ In d (delivered s) /\
-    d_batch d <> [] /\ zlen (d_batch d) < 5 /\ mode s = FBatch 5 /\ cclosed s = false /\
-    timed (d_reason d) = true /\ d_ann d = false /\ d_clock d < d_start d + maxw s.
-Proof. exact maxwait_refuted. Qed.
+(* ---- the behaviour before the fix ----
+   [step_prefix] is [step] with the pre-fix branch of the `case <-out.waiting` arm (flush() without
+   stopTimer() when time.Since(batchStart) > maxWait).  With it both clauses above fail: one script
+   ends with an empty batch handed to a consumer, another with the underfilled batch [2] flushed by
+   the timer arm at clock 11 = batchStart although maxWait = 10 and nobody had announced itself;
+   the fixed [step] cannot follow either script. *)
+Theorem C11_old_code_refuted :
+  let i := init 10 (FBatch 5) [0; 1; 2]%nat 3 in
+  (exists s d, run step_prefix i w_empty = Some s /\ In d (delivered s) /\ d_batch d = [] /\
+               result_of s (d_who d) = Some (CBatch []))
+  /\ (exists s d, run step_prefix i w_early = Some s /\ In d (delivered s) /\
+                  d_batch d <> [] /\ zlen (d_batch d) < 5 /\ cclosed s = false /\
+                  timed (d_reason d) = true /\ d_ann d = false /\ d_clock d < d_start d + maxw s)
+  /\ run step i w_empty = None /\ run step i w_early = None.
+Proof. exact old_code_refuted. Qed.
 
 (* ---- C11_error_after_items ----
    A consumer call that returns the error e: e is the error the source returned, and (unless Close
@@ -163,12 +157,11 @@ Proof.
 Qed.
 
 Print Assumptions C11_partition.
+Print Assumptions C11_nonempty.
 Print Assumptions C11_bounded.
-Print Assumptions C11_nonempty_partial.
-Print Assumptions C11_nonempty_refuted.
-Print Assumptions C11_underfilled_only_after_maxwait_partial.
+Print Assumptions C11_underfilled_only_after_maxwait.
 Print Assumptions C11_underfilled_is_timed.
-Print Assumptions C11_underfilled_refuted.
+Print Assumptions C11_old_code_refuted.
 Print Assumptions C11_error_after_items.
 Print Assumptions C11_ctx_expiry_loses_nothing.
 Print Assumptions C11_close_returns.
